@@ -261,12 +261,12 @@ func runC12(c *Ctx) {
 		return
 	}
 	nhdr := 0
-	for _, fn := range m.Funcs {
+	for _, fn := range m.scanFuncs() {
 		if fn.Pkg != pkg {
 			continue
 		}
 		var g *IG
-		for _, b := range fn.Blocks {
+		for _, b := range m.blocksOf(fn) {
 			for _, in := range b.Instrs {
 				al, ok := in.(*ssa.Alloc)
 				if !ok || !typeIs(al.Type(), shT) {
@@ -307,7 +307,7 @@ func runC12(c *Ctx) {
 				}
 				nhdr++
 				if g == nil {
-					g = newIG(m, fn, nil)
+					g = scanIG(m, fn, nil)
 				}
 				key := fmt.Sprintf("slice-over-table %s", m.fnName(fn))
 				c.Evals++
@@ -413,13 +413,13 @@ func runC12(c *Ctx) {
 	strict := m.lookupMethod(aml, "Parser", "parseStrictTermArg")
 	ok0, _ := namedConstUint(m, aml, "parseResultOk")
 	ncalls := 0
-	for _, fn := range m.Funcs {
+	for _, fn := range m.scanFuncs() {
 		if fn.Pkg != pkg {
 			continue
 		}
 		var g *IG
 		seq := 0
-		for _, b := range fn.Blocks {
+		for _, b := range m.blocksOf(fn) {
 			for _, in := range b.Instrs {
 				call, ok := in.(*ssa.Call)
 				if !ok {
@@ -464,7 +464,7 @@ func runC12(c *Ctx) {
 				// named exception
 				if fn == strict && m.callee(call.Common()) == nextOp && peek != nil {
 					if g == nil {
-						g = newIG(m, fn, nil)
+						g = scanIG(m, fn, nil)
 					}
 					okPeek := hasFact(g.FactsAt(g.Idx[in]), func(ft Fact) bool {
 						return cmpMatch(ft, token.EQL, func(v ssa.Value) bool { _, ok := m.resultOf(v, peek, 1); return ok }, func(v ssa.Value) bool { k, ok := constUint64(v); return ok && k == ok0 })
